@@ -56,12 +56,16 @@ Module GrpSim.
     | |- context [b2n (?a && ?b)] => destruct a eqn:?; destruct b eqn:?; cbn
     | |- context [b2n (?a =? ?b)] => destruct (a =? b) eqn:?; bool_hyps; cbn
     end.
+  (* lia on the purely linear part of the context first: the implications double its case analysis each *)
+  Ltac lia0 := solve [ repeat match goal with H : _ -> _ |- _ => clear H end; lia ].
+  Ltac lia2 := first [ lia0 | lia ].
+
   Ltac finish_R I' :=
     first
-      [ exfalso; lia
+      [ exfalso; lia2
       | constructor; [exact I' | ..];
         unfold set_errs, with_panic, set_kc, set_cc, set_lk, set_sess, set_ctx, set_hb, set_lc, set_claims, set_budget, set_fw, claims;
-        cbn; rw_consts; cbn; try lia; bool_goal1; try lia ].
+        cbn; rw_consts; cbn; try lia2; bool_goal1; try lia2 ].
 
   Ltac sim_prep :=
     match goal with HR : R ?s ?q, H : step ?c ?s ?a = Some ?s', G : _ \/ _ |- _ =>
@@ -91,7 +95,7 @@ Module GrpSim.
                             | |- context [_ && b] => destruct b | |- context [negb b] => destruct b end end;
         repeat match goal with |- context [?a =? ?b] => destruct (a =? b) eqn:? | |- context [?a <=? ?b] => destruct (a <=? b) eqn:? end;
         cbn in *; q_cases; bool_hyps; subst; cbn in *;
-        first [ exfalso; cbn in *; lia
+        first [ exfalso; cbn in *; lia2
               | eexists; split; [reflexivity|]; finish_R I' ]
       end
     end.
